@@ -284,12 +284,11 @@ class Sampler:
                     f"required normalisation ({total_p})."
                 )
                 raise ValueError(msg) from e
+            # Only the probabilities used for sampling are normalised here,
+            # the stored distribution is left as calculated so that it does not
+            # depend on whether sampling has taken place.
             norm_p = [p / total_p for p in pdist.values()]
             samples = rng.choice(vals, p=norm_p, size=N)
-            self.__probability_distribution = {
-                k: v / total_p
-                for k, v in self.__probability_distribution.items()
-            }
         filtered_samples = []
         # Get heralds and pre-calculate items
         heralds = self.circuit.heralds["output"]
